@@ -36,7 +36,16 @@ mod private {
             let offset = stream.tell();
             let mut serializer = Serializer::new(BlockCheck::Crc32);
             self.serialize_tail(&mut serializer)?;
-            let size = stream.write_serializer(serializer)?.into();
+            let size = stream.write_serializer(serializer)?;
+            if size > 0xFFFF {
+                // The size of a tail is stored on 16 bits.
+                return Err(io::Error::new(
+                    io::ErrorKind::InvalidInput,
+                    format!("Tail block is too big ({size} bytes) to be referenced"),
+                )
+                .into());
+            }
+            let size = size.into();
             Ok(SizedOffset { size, offset })
         }
     }
